@@ -258,6 +258,10 @@ impl SmartCalc {
     }
     
     pub fn add_rule(&mut self, language: String, rules: Vec<String>, rule: Rc<dyn RuleTrait>) -> bool {
+        if !self.config.rule.contains_key(&language) {
+            return false;
+        }
+
         let mut rule_tokens = Vec::new();
         
         for rule_item in rules.iter() {
